@@ -10,6 +10,9 @@ Model/Clause.vos Model/Clause.vok Model/Clause.required_vos: Model/Clause.v Mode
 Model/Order.vo Model/Order.glob Model/Order.v.beautified Model/Order.required_vo: Model/Order.v Model/Term.vo Model/Unify.vo
 Model/Order.vio: Model/Order.v Model/Term.vio Model/Unify.vio
 Model/Order.vos Model/Order.vok Model/Order.required_vos: Model/Order.v Model/Term.vos Model/Unify.vos
+Model/TermCheck.vo Model/TermCheck.glob Model/TermCheck.v.beautified Model/TermCheck.required_vo: Model/TermCheck.v Model/Term.vo Model/Unify.vo Model/Order.vo
+Model/TermCheck.vio: Model/TermCheck.v Model/Term.vio Model/Unify.vio Model/Order.vio
+Model/TermCheck.vos Model/TermCheck.vok Model/TermCheck.required_vos: Model/TermCheck.v Model/Term.vos Model/Unify.vos Model/Order.vos
 Model/Groups.vo Model/Groups.glob Model/Groups.v.beautified Model/Groups.required_vo: Model/Groups.v 
 Model/Groups.vio: Model/Groups.v 
 Model/Groups.vos Model/Groups.vok Model/Groups.required_vos: Model/Groups.v 
@@ -91,3 +94,9 @@ Proofs/Cancel.vos Proofs/Cancel.vok Proofs/Cancel.required_vos: Proofs/Cancel.v 
 Props/C13.vo Props/C13.glob Props/C13.v.beautified Props/C13.required_vo: Props/C13.v Model/Term.vo Model/Unify.vo Model/Clause.vo Model/Machine.vo Proofs/Promise.vo Proofs/Trampoline.vo Proofs/Cancel.vo Model/Boot.vo Model/MachineCheck.vo
 Props/C13.vio: Props/C13.v Model/Term.vio Model/Unify.vio Model/Clause.vio Model/Machine.vio Proofs/Promise.vio Proofs/Trampoline.vio Proofs/Cancel.vio Model/Boot.vio Model/MachineCheck.vio
 Props/C13.vos Props/C13.vok Props/C13.required_vos: Props/C13.v Model/Term.vos Model/Unify.vos Model/Clause.vos Model/Machine.vos Proofs/Promise.vos Proofs/Trampoline.vos Proofs/Cancel.vos Model/Boot.vos Model/MachineCheck.vos
+Proofs/Unify.vo Proofs/Unify.glob Proofs/Unify.v.beautified Proofs/Unify.required_vo: Proofs/Unify.v Model/Term.vo Model/Unify.vo
+Proofs/Unify.vio: Proofs/Unify.v Model/Term.vio Model/Unify.vio
+Proofs/Unify.vos Proofs/Unify.vok Proofs/Unify.required_vos: Proofs/Unify.v Model/Term.vos Model/Unify.vos
+Props/C02.vo Props/C02.glob Props/C02.v.beautified Props/C02.required_vo: Props/C02.v Model/Term.vo Model/Unify.vo Proofs/Unify.vo
+Props/C02.vio: Props/C02.v Model/Term.vio Model/Unify.vio Proofs/Unify.vio
+Props/C02.vos Props/C02.vok Props/C02.required_vos: Props/C02.v Model/Term.vos Model/Unify.vos Proofs/Unify.vos
